@@ -116,6 +116,9 @@ def run(ctx):
 
     # ------------------------------------------------------------------ C19-own-state
     ctx.rule("C19-own-state", "per-instance state is created per instance")
+    from . import privacy
+    privacy.require_restricted(ctx, "C19-own-state", fb, "interpreter::interpreter::Interpreter", ["syntax_env", "libraries", "lib_loader"],
+                               "another instance's state could be aliased into this one from outside the module")
     we = fb.find(ITP + "with_environment")
     p = Prov(we)
     aggs = [(b, s) for b, i, s, a, v in mir.aggregates(we, None, "interpreter::interpreter::Interpreter")]
